@@ -255,6 +255,9 @@ impl CommitPipeline {
 			return Err(Error::PipelineStall);
 		}
 
+		#[cfg(surrealkv_verif)]
+		crate::verif::yp("commit:enter");
+
 		// Check for background errors before proceeding
 		self.env.check_background_error()?;
 
@@ -265,11 +268,15 @@ impl CommitPipeline {
 		// Check write stall BEFORE acquiring any locks.
 		// This ensures stalled writers wait here without blocking others.
 		self.write_stall.check().await?;
+		#[cfg(surrealkv_verif)]
+		crate::verif::yp("commit:stall_passed");
 
 		// Acquire permit for flow control
 		let _permit = self.commit_sem.acquire().await.map_err(|_| Error::PipelineStall)?;
 
 		let (commit_batch, complete_rx) = CommitBatch::new(batch.count());
+		#[cfg(surrealkv_verif)]
+		crate::verif::yp("commit:permit");
 
 		// === CRITICAL SECTION under write_mutex ===
 		//
@@ -296,6 +303,18 @@ impl CommitPipeline {
 		let (processed_batch, allocated_seq): (Batch, u64) = {
 			let _guard = self.write_mutex.lock();
 
+			#[cfg(surrealkv_verif)]
+			crate::verif::ev(crate::verif::VerifEvent::Check {
+				start_seq,
+				outcome: match self
+					.oracle
+					.check(batch.entries.iter().map(|e| e.key.as_slice()), start_seq)
+				{
+					Ok(()) => 0,
+					Err(Error::TransactionWriteConflict) => 1,
+					Err(_) => 2,
+				},
+			});
 			// Validate against the oracle. No state has changed yet; on
 			// failure `?` simply returns the error to the caller.
 			self.oracle.check(batch.entries.iter().map(|e| e.key.as_slice()), start_seq)?;
@@ -313,6 +332,12 @@ impl CommitPipeline {
 			// txn's snapshot). With this clamp, `kept_since` can never advance past
 			// the committing txn's own snapshot — regardless of caller hygiene.
 			let oldest_active = self.env.oldest_active_start_seq().min(start_seq);
+			#[cfg(surrealkv_verif)]
+			crate::verif::ev(crate::verif::VerifEvent::Alloc {
+				seq: seq_num,
+				count,
+				oldest_active,
+			});
 			self.oracle.publish(
 				batch.entries.iter().map(|e| e.key.as_slice()),
 				seq_num,
@@ -336,6 +361,11 @@ impl CommitPipeline {
 					// overwriters untouched.
 					let stamp = seq_num + count - 1;
 					self.oracle.rollback(batch.entries.iter().map(|e| e.key.as_slice()), stamp);
+					#[cfg(surrealkv_verif)]
+					crate::verif::ev(crate::verif::VerifEvent::Logged {
+						seq: seq_num,
+						ok: false,
+					});
 					// The batch is in `pending` and was never marked applied.
 					// Order matters: complete with Err FIRST, then mark_applied,
 					// so a concurrent publish() can't dequeue and call
@@ -344,17 +374,35 @@ impl CommitPipeline {
 					commit_batch.mark_applied();
 					// Release write_mutex before draining the queue.
 					drop(_guard);
+					#[cfg(surrealkv_verif)]
+					crate::verif::yp("commit:log_failed");
 					self.publish();
 					return Err(e);
 				}
 			}
 		};
 		// === END CRITICAL SECTION ===
+		#[cfg(surrealkv_verif)]
+		{
+			crate::verif::ev(crate::verif::VerifEvent::Logged {
+				seq: allocated_seq,
+				ok: true,
+			});
+			crate::verif::yp("commit:logged");
+		}
 
 		// Memtable apply — OUTSIDE write_mutex. The next committer can already
 		// be inside the critical section. This restores the pipeline overlap
 		// that PR #378 destroyed.
 		let apply_result = self.env.apply(&processed_batch);
+		#[cfg(surrealkv_verif)]
+		{
+			crate::verif::ev(crate::verif::VerifEvent::Applied {
+				seq: allocated_seq,
+				ok: apply_result.is_ok(),
+			});
+			crate::verif::yp("commit:applied");
+		}
 
 		// =========================================================================
 		// Failure-path invariants
@@ -392,9 +440,13 @@ impl CommitPipeline {
 		};
 
 		commit_batch.mark_applied();
+		#[cfg(surrealkv_verif)]
+		crate::verif::yp("commit:marked");
 
 		// Publish (multi-consumer) - MUST always run to drain queue
 		self.publish();
+		#[cfg(surrealkv_verif)]
+		crate::verif::yp("commit:published");
 
 		if let Some(err) = apply_err {
 			return Err(err);
@@ -422,6 +474,8 @@ impl CommitPipeline {
 				Some(batch) => {
 					// Publish this batch's sequence number
 					let new_visible = batch.get_seq_num() + batch.count as u64 - 1;
+					#[cfg(surrealkv_verif)]
+					crate::verif::yp("publish:dequeued");
 
 					loop {
 						let current = self.visible_seq_num.load(Ordering::Acquire);
@@ -444,6 +498,14 @@ impl CommitPipeline {
 						}
 					}
 
+					#[cfg(surrealkv_verif)]
+					{
+						crate::verif::ev(crate::verif::VerifEvent::Published {
+							seq: batch.get_seq_num(),
+							visible: self.visible_seq_num.load(Ordering::Acquire),
+						});
+						crate::verif::yp("publish:advanced");
+					}
 					// Complete this batch
 					batch.complete(Ok(()));
 				}
